@@ -216,13 +216,6 @@ func (d *decompressor) using(b Block) *decompressor { d.blk = b; return d }
 // holds a valid gzip.Header and base offset.
 func (d *decompressor) nextBlockAt(off int64, rs io.ReadSeeker) *decompressor {
 	d.err = nil
-	for {
-		exists, next := d.owner.cacheHasBlockFor(off)
-		if !exists {
-			break
-		}
-		off = next
-	}
 
 	d.lazyBlock()
 
@@ -459,7 +452,9 @@ func (bg *Reader) Seek(off Offset) error {
 
 	if off.File != bg.current.Base() || !bg.current.hasData() {
 		ok := bg.cacheSwap(off.File)
-		if !ok {
+		if ok {
+			bg.resync()
+		} else {
 			var dec *decompressor
 			if bg.dec != nil {
 				dec = bg.dec
@@ -475,7 +470,7 @@ func (bg *Reader) Seek(off Offset) error {
 							// wanted.
 							bg.current = blk
 							verifPoint("reader.seek.control", off.File, 1)
-							bg.control <- bg.current.NextBase()
+							bg.resync()
 							bg.waiting <- dec
 							dec = nil
 						} else {
@@ -629,6 +624,7 @@ func (bg *Reader) nextBlock() error {
 	ok := bg.cacheSwap(base)
 	if ok {
 		bg.Header = bg.current.header()
+		bg.resync()
 		return nil
 	}
 
@@ -638,7 +634,8 @@ func (bg *Reader) nextBlock() error {
 		bg.current, err = bg.dec.wait()
 	} else {
 		var ok bool
-		for i := 0; i < cap(bg.working); i++ {
+		// After a resync every decompressor may hold a stale block.
+		for i := 0; i <= cap(bg.working); i++ {
 			verifPoint("reader.consume", base, int64(len(bg.working)))
 			dec := <-bg.working
 			bg.current, err = dec.wait()
@@ -672,6 +669,20 @@ func (bg *Reader) nextBlock() error {
 	}
 
 	return nil
+}
+
+// resync directs the read-ahead goroutine, if there is one, to continue
+// from the block following the current block. It must be called when the
+// current block was obtained from the cache rather than from read-ahead.
+func (bg *Reader) resync() {
+	if bg.control == nil {
+		return
+	}
+	select {
+	case <-bg.control:
+	default:
+	}
+	bg.control <- bg.current.NextBase()
 }
 
 // cacheSwap attempts to swap the current Block for a cached Block
